@@ -289,6 +289,12 @@ def gen_history(rng, knobs):
             reqline = "GET /queue HTTP/1.1\r\n\r\n"
             ops.append("HQ %d %s - -" % (pr, reqline.encode().hex())); acts.append(("HQ", pr, None, "/queue"))
             continue
+        if knobs.get("conns", False) and r < 0.045 and r >= 0.03:
+            # many clients at a time: the daemon has 64 connection slots
+            k = rng.choice([1, 5, 31, 32, 33, 34, 40, 63, 64, 65, 66, 80, rng.randint(1, 100)])
+            hang = sorted(set(rng.randint(0, k + 2) for _ in range(rng.randint(0, 6))))
+            ops.append("N %d%s" % (k, "".join(" %d" % x for x in hang))); acts.append(("N", k, hang))
+            continue
         if knobs.get("httpq", False) and r < 0.03:
             # a spell of requests and looks at the spool by users of both uid ranges: every look by a user with unsaved
             # changes is a checkpoint, so the daemon's list of marks is filled and emptied many times over
@@ -385,6 +391,8 @@ def run_ref(acts, me=0, groups=None):
             outs.append(("H", ref.http_sched(a[1], a[2], a[3])))
         elif a[0] == "HQ":
             outs.append(("HQ", ref.http_queue(a[1], a[2])))
+        elif a[0] == "N":
+            outs.append(("N", None))
         elif a[0] == "Q":
             outs.append(("Q", ref.table()))
         elif a[0] == "C":
@@ -396,6 +404,10 @@ def run_ref(acts, me=0, groups=None):
         else:
             outs.append((a[0], None))
     return outs
+
+
+def ops_text(a):
+    return " ".join(str(x) for x in a)[:80]
 
 
 def compare(acts, answer, me=0):
@@ -436,6 +448,33 @@ def compare(acts, answer, me=0):
                               % (i, a[1], a[4], sorted(listed - w), sorted(w))))
             elif status == "200" and a[2] in (None, a[1]) and not a[3] and listed != w:
                 diffs.append(("C11", "op %d: user %d listing its tasks sees %s, its queue holds %s" % (i, a[1], sorted(listed), sorted(w))))
+        elif kind == "N":
+            toks = g.split(",") if g else []
+            k, hang = a[1], a[2]
+            live, got = set(), []
+            bad = None
+            nfree = 0
+            for j, tk in enumerate(toks):
+                if j == k:
+                    # the listed clients hang up
+                    for x in hang:
+                        if x < len(got) and got[x] is not None and got[x] in live:
+                            live.discard(got[x]); got[x] = None; nfree += 1
+                if tk == "-":
+                    if len(live) < 64:
+                        bad = "connection %d is turned away with %d of 64 slots in use" % (j, len(live))
+                        break
+                    got.append(None)
+                    continue
+                slot = int(tk.rstrip("!"))
+                if tk.endswith("!") or slot in live:
+                    bad = "connection %d is handed slot %d, which another live connection holds (%d in use)" % (j, slot, len(live))
+                    break
+                live.add(slot); got.append(slot)
+            if bad is None and len(toks) < k:
+                bad = "%d answers for %d connections" % (len(toks), k)
+            if bad:
+                diffs.append(("C11", "op %d (%s): %s" % (i, ops_text(a), bad)))
         elif kind == "HQ":
             status, _, body = g.partition(":")
             listed = set(x for x in body.split("+") if x)
